@@ -27,14 +27,18 @@
 //! # }
 //! ```
 use crate::sync::{RwLock, RwLockReadGuard};
+#[cfg(not(tokio_rs_tracing_verif))]
+use std::sync::atomic::AtomicUsize;
 use std::{
     fmt::{self, Debug},
     fs::{self, File, OpenOptions},
     io::{self, Write},
     path::{Path, PathBuf},
-    sync::atomic::{AtomicUsize, Ordering},
+    sync::atomic::Ordering,
 };
 use time::{format_description, Date, Duration, OffsetDateTime, Time};
+#[cfg(tokio_rs_tracing_verif)]
+use tracing_subscriber::__verif::atomic::AtomicUsize;
 
 mod builder;
 pub use builder::{Builder, InitError};
